@@ -9,9 +9,15 @@ func init() {
 			cfg := engine.DefaultConfig()
 			var cs []engine.Case
 			if tier == "thorough" {
-				cs = append(cs, mkCase("", "c15", "HSeq", cfg, 1, 3), mkCase("", "c15", "HSeq", cfg, 2, 2), mkCase("", "c15", "HSeq", cfg, 3, 1), mkCase("", "c15", "HSeq", cfg, 3, 2))
+				cs = append(cs, mkCase("", "c15", "HSeq", cfg, 1, 3, 0), mkCase("", "c15", "HSeq", cfg, 2, 2, 0), mkCase("", "c15", "HSeq", cfg, 3, 1, 0), mkCase("", "c15", "HSeq", cfg, 3, 2, 0))
+				for pre := int64(1); pre < 6; pre++ {
+					cs = append(cs, mkCase("", "c15", "HSeq", cfg, 2, 1, pre))
+				}
 			} else {
-				cs = append(cs, mkCase("", "c15", "HSeq", cfg, 1, 2), mkCase("", "c15", "HSeq", cfg, 2, 1), mkCase("", "c15", "HSeq", cfg, 2, 2))
+				cs = append(cs, mkCase("", "c15", "HSeq", cfg, 1, 2, 0), mkCase("", "c15", "HSeq", cfg, 2, 1, 0), mkCase("", "c15", "HSeq", cfg, 2, 2, 0))
+				for pre := int64(1); pre < 6; pre++ {
+					cs = append(cs, mkCase("", "c15", "HSeq", cfg, 1, 1, pre))
+				}
 			}
 			ccfg := cfg
 			ccfg.Preempt = 3
@@ -26,9 +32,9 @@ func init() {
 		Explanation: "Bounded symbolic execution of all of idm/memidm in lock-step with a two-list reference model written in the harness: a history of L calls chosen among AddGroup, AddUser, DelGroup, DelUser, LookupGroup, LookupGroupId, LookupUser, LookupUserId; names are drawn from a pool (the administrator's name, a, b) or are fully symbolic strings (all 256 byte values per byte), ids are symbolic 64-bit integers; after every step results, documented error types and payloads, by-name/by-id agreement for every entry ever created, id monotonicity (a deleted id is never found again) and IsAdmin <=> the administrator are asserted. Concurrent half: every unordered pair of 11 calls (over a small pool of names) is run by two interpreted goroutines on one shared MemIdm under every interleaving at lock granularity (pre-emption bound 3); results and final by-name/by-id state must equal those of a sequential order (bounded exhaustive schedule exploration; decided in the interpreter only).",
 		Bounds: func(tier string) map[string]any {
 			if tier == "thorough" {
-				return map[string]any{"history_length_x_symbolic_name_length": "L=1,n=3; L=2,n=2; L=3,n<=2", "concurrent": "2 goroutines x 1 call, 66 pairs, pre-emption bound 3", "outside": "longer histories; more goroutines"}
+				return map[string]any{"history_length_x_symbolic_name_length": "L=1,n=3; L=2,n=2; L=3,n<=2; 5 concrete prefix histories (2-4 calls: add/delete user, add/delete group, group deleted under its user, administrator deleted) followed by L=2,n=1", "concurrent": "2 goroutines x 1 call, 66 pairs, pre-emption bound 3", "outside": "longer histories; more goroutines"}
 			}
-			return map[string]any{"history_length_x_symbolic_name_length": "L=1,n=2; L=2,n<=2", "concurrent": "2 goroutines x 1 call, 66 pairs, pre-emption bound 3", "outside": "longer histories; more goroutines"}
+			return map[string]any{"history_length_x_symbolic_name_length": "L=1,n=2; L=2,n<=2; 5 concrete prefix histories (2-4 calls) followed by L=1,n=1", "concurrent": "2 goroutines x 1 call, 66 pairs, pre-emption bound 3", "outside": "longer histories; more goroutines"}
 		},
 		Trusted: []string{"the harness reference model (two lists with monotone counters)"},
 	})
